@@ -9,6 +9,7 @@ from sa.layout import ConstV, IntV, Lin, ObjV, Raised, State, int_const, trim_bi
 from sa.model import AnalysisError, ClassInfo, FuncInfo, Model, walk_no_nested
 from sa.oracles import iso14229
 from sa.report import Report
+from sa.uds_rules import parse_pdu_request_consistency
 
 TITLE = "Genuine replies are always accepted, foreign or stale replies always refused"
 EXC = "gallia.services.uds.core.exception"
@@ -702,34 +703,7 @@ def run(m: Model, r: Report, tier: str) -> None:
             all(n.lineno < last_top.lineno for n in raises if "RequestResponseMismatch" in ast.unparse(n)),
             "R6", f"{pp.qualname}#mismatch-before-malformed",
             f"except-handler raises {names}; expected the mismatch tests of both branches before the final MalformedResponse", loc=pp.loc)
-    # parsed_request consistency
-    parsed_var = None
-    for s in body:
-        if isinstance(s, ast.Assign) and "parse_dynamic(request.pdu)" in ast.unparse(s.value) and isinstance(s.targets[0], ast.Name):
-            parsed_var = s.targets[0].id
-    if parsed_var is None:
-        raise AnalysisError("parse_pdu: dynamic parse of the request not found")
-    ifs = [s for s in body if isinstance(s, ast.If)]
-    okc = False
-    detail = ""
-    for s in ifs:
-        test = ast.unparse(s.test)
-        if "RawRequest" in test:
-            tested = [n.args[0].id for n in ast.walk(s.test) if isinstance(n, ast.Call) and ast.unparse(n.func) == "isinstance"
-                      and isinstance(n.args[0], ast.Name) and "RawRequest" in ast.unparse(n.args[1])]
-            matched = [n.args[0].id for n in ast.walk(s) if isinstance(n, ast.Call) and isinstance(n.func, ast.Attribute)
-                       and n.func.attr == "matches" and n.args and isinstance(n.args[0], ast.Name)]
-            detail = f"isinstance(RawRequest) tests {tested}, matches() is given {matched}"
-            okc = tested == [parsed_var] and matched == [parsed_var]
-            resp_vars = {n.func.value.id for n in ast.walk(s) if isinstance(n, ast.Call) and isinstance(n.func, ast.Attribute)
-                         and n.func.attr == "matches" and isinstance(n.func.value, ast.Name)}
-            sid_fallback = any(isinstance(n, ast.Compare) and any(f"{rv}.service_id" in ast.unparse(n) for rv in resp_vars) and "request.service_id" in ast.unparse(n)
-                               for n in ast.walk(s))
-            r.check(sid_fallback, "R6", f"{pp.qualname}#raw-fallback-service-id",
-                    "the raw-request fallback does not compare response.service_id with request.service_id", loc=pp.loc)
-    r.check(okc, "R6", f"{pp.qualname}#same-parsed-request",
-            f"{detail}; both must use the dynamically parsed request {parsed_var}: otherwise typed replies to raw requests are only "
-            "compared by service id (stale identifiers accepted) or typed requests that re-parse as raw are refused", loc=pp.loc)
+    parse_pdu_request_consistency(m, r, "R6")
     trig = [i for i, s in enumerate(body) if isinstance(s, ast.Assign) and "trigger_request" in ast.unparse(s.targets[0])]
     last_if = max(i for i, s in enumerate(body) if isinstance(s, ast.If))
     r.check(len(trig) == 1 and trig[0] > last_if and isinstance(body[-1], ast.Return), "R6", f"{pp.qualname}#trigger-request",
